@@ -424,3 +424,170 @@ Proof.
         eexists _, _, _, _, _. split; [reflexivity|]. split; [reflexivity|]. agree_tail.
         split; [reflexivity|]. split; [discriminate|]. split; [reflexivity|reflexivity].
 Qed.
+
+(* ------------------------------------------------------------------ C. default loops over any OS oracle *)
+Definition loop_body {S} (zerr : ioerr) (fi fo : nat) (call : callT S) (pb : vslice)
+  (x : (S * list N) * res N) : outcome ((S * list N) * res unit) :=
+  let '((s', m'), r) := x in
+  match r with
+  | Ok n => if n =? 0 then Val ((s', m'), Err (VIo zerr))
+            else match vs_offset pb n with
+                 | Ok pb' => exact_loop zerr fi fo call s' m' pb'
+                 | Err e => Val ((s', m'), Err e)
+                 end
+  | Err e => Val ((s', m'), Err e)
+  end.
+Lemma exact_loop_unfold {S} zerr fi fo (call : callT S) s m pb :
+  exact_loop zerr fi (Datatypes.S fo) call s m pb =
+  if vs_len pb =? 0 then Val ((s, m), Ok tt)
+  else let* x := retry_eintr fi call s m pb in loop_body zerr fi fo call pb x.
+Proof. reflexivity. Qed.
+
+Lemma retry_mono {S} (call : callT S) : forall f1 f2 s m v z, (f1 <= f2)%nat ->
+  retry_eintr f1 call s m v = Val z -> retry_eintr f2 call s m v = Val z.
+Proof.
+  induction f1 as [|f1 IH]; intros f2 s m v z Hle H; [discriminate|].
+  destruct f2 as [|f2]; [lia|]. cbn [retry_eintr] in *.
+  destruct (call s m v) as [[[s' m'] r]| |]; cbn [bind] in *; try discriminate.
+  destruct r as [n|[[]| |]]; try exact H. apply (IH f2); [lia|exact H].
+Qed.
+Lemma exact_loop_mono {S} zerr (call : callT S) : forall fo fi1 fi2 s m pb z, (fi1 <= fi2)%nat ->
+  exact_loop zerr fi1 fo call s m pb = Val z -> exact_loop zerr fi2 fo call s m pb = Val z.
+Proof.
+  induction fo as [|fo IH]; intros fi1 fi2 s m pb z Hle H; [discriminate|].
+  rewrite exact_loop_unfold in *. destruct (vs_len pb =? 0); [exact H|].
+  destruct (retry_eintr fi1 call s m pb) as [x| |] eqn:E; cbn [bind] in H; try discriminate.
+  rewrite (retry_mono call fi1 fi2 _ _ _ _ Hle E). cbn [bind].
+  destruct x as [[s' m'] r]. unfold loop_body in *. destruct r as [n|e]; [|exact H].
+  destruct (n =? 0); [exact H|]. destruct (vs_offset pb n); [|exact H]. eapply IH; eassumption.
+Qed.
+Lemma body_mono {S} zerr (call : callT S) fo fi1 fi2 pb x z : (fi1 <= fi2)%nat ->
+  loop_body zerr fi1 fo call pb x = Val z -> loop_body zerr fi2 fo call pb x = Val z.
+Proof.
+  intros Hle H. destruct x as [[s' m'] r]. unfold loop_body in *. destruct r as [n|e]; [|exact H].
+  destruct (n =? 0); [exact H|]. destruct (vs_offset pb n); [|exact H]. eapply exact_loop_mono; eassumption.
+Qed.
+
+Lemma mem_write_acc (acc b bs : list N) : nlen acc + nlen bs <= nlen b ->
+  mem_write (acc ++ ndrop (nlen acc) b) (nlen acc) bs = (acc ++ bs) ++ ndrop (nlen (acc ++ bs)) b.
+Proof.
+  intros H. unfold mem_write. rewrite ntake_app_exact.
+  rewrite ndrop_app_ge by lia. replace (nlen acc + nlen bs - nlen acc) with (nlen bs) by lia.
+  rewrite ndrop_ndrop, nlen_app, <- app_assoc. reflexivity.
+Qed.
+
+Section FdLoops.
+  Variable F : Type.
+  Variable os_read : F -> N -> F * os_rres.
+  Variable os_write : F -> list N -> F * os_wres.
+  (* the kernel never returns more than it was asked for *)
+  Hypothesis read_bounded : forall f len f' bs, os_read f len = (f', OsData bs) -> nlen bs <= len.
+  Hypothesis write_bounded : forall f d f' n, os_write f d = (f', OsCount n) -> n <= nlen d.
+  Variable A : N.   (* host address of the buffer *)
+
+  Definition pb_at (b : list N) (done : N) : vslice :=
+    {| vs_addr := A + done; vs_off := margin + done; vs_len := nlen b - done |}.
+
+  Lemma fd_read_exact_sim : forall fuel f acc b of out r,
+    A + nlen b < W64 -> nlen acc <= nlen b ->
+    std_fd_read_exact os_read fuel f (nlen b - nlen acc) acc = Val (of, out, r) ->
+    forall fi fo, (fuel <= fi)%nat -> (fuel <= fo)%nat ->
+    exists f' b', exact_loop EUnexpectedEof fi fo (read_volatile_raw_fd os_read) f
+                    (arena (acc ++ ndrop (nlen acc) b)) (pb_at b (nlen acc)) = Val ((f', arena b'), r)
+      /\ nlen b' = nlen b /\ (r = Ok tt -> of = Some f' /\ out = b') /\ (r <> Ok tt -> of = None).
+  Proof.
+    induction fuel as [|k IH]; intros f acc b of out r HA Hacc Hstd fi fo Hfi Hfo; [discriminate|].
+    destruct fo as [|fo]; [lia|]. destruct fi as [|fi]; [lia|].
+    cbn [std_fd_read_exact] in Hstd. rewrite exact_loop_unfold. unfold pb_at at 1. cbn [vs_len].
+    assert (Hbl : nlen (acc ++ ndrop (nlen acc) b) = nlen b) by (rewrite nlen_app, nlen_ndrop; lia).
+    destruct (N.eqb_spec (nlen b - nlen acc) 0) as [Hz|Hz].
+    - injection Hstd as <- <- <-. exists f, (acc ++ ndrop (nlen acc) b). split; [reflexivity|].
+      split; [exact Hbl|]. split; [|congruence]. intros _. split; [reflexivity|].
+      rewrite ndrop_all by lia. rewrite app_nil_r. reflexivity.
+    - cbn [retry_eintr]. unfold read_volatile_raw_fd at 1. cbn [pb_at vs_len vs_off].
+      destruct (os_read f (nlen b - nlen acc)) as [f1 r0] eqn:Eos.
+      destruct r0 as [bs|e].
+      + (* data *)
+        pose proof (read_bounded _ _ _ _ Eos) as Hbs. cbn [bind].
+        rewrite arena_write_at by (rewrite Hbl; lia).
+        rewrite mem_write_acc by lia.
+        destruct (N.eqb_spec (nlen bs) 0) as [Hn0|Hn0].
+        * injection Hstd as <- <- <-. unfold loop_body. rewrite Hn0. cbn [N.eqb].
+          eexists f1, _. split; [reflexivity|]. split.
+          { rewrite nlen_app, nlen_ndrop, nlen_app. lia. }
+          split; [discriminate|reflexivity].
+        * unfold loop_body. destruct (N.eqb_spec (nlen bs) 0); [contradiction|].
+          rewrite vs_offset_ok_c by (unfold pb_at; cbn [vs_addr vs_len]; lia).
+          cbn [pb_at vs_addr vs_off vs_len].
+          replace (nlen b - nlen acc - nlen bs) with (nlen b - nlen (acc ++ bs)) in * by (rewrite nlen_app; lia).
+          destruct (IH f1 (acc ++ bs) b of out r HA) with (fi := Datatypes.S fi) (fo := fo)
+            as (f' & b' & He & Hl & Hok & Hko); [rewrite nlen_app; lia|exact Hstd|lia|lia|].
+          exists f', b'. split; [|auto].
+          rewrite <- He. unfold pb_at. f_equal. f_equal; rewrite nlen_app; lia.
+      + destruct e.
+        * (* interrupted: std retries with one unit of fuel less; so does the inner loop *)
+          cbn [bind].
+          destruct (IH f1 acc b of out r HA Hacc Hstd fi (Datatypes.S fo)) as (f' & b' & He & Hrest); [lia|lia|].
+          exists f', b'. split; [|exact Hrest].
+          rewrite exact_loop_unfold in He. unfold pb_at at 1 in He. cbn [vs_len] in He.
+          destruct (N.eqb_spec (nlen b - nlen acc) 0); [contradiction|].
+          destruct (retry_eintr fi (read_volatile_raw_fd os_read) f1 (arena (acc ++ ndrop (nlen acc) b)) (pb_at b (nlen acc)))
+            as [x| |] eqn:Er; cbn [bind] in He; try discriminate.
+          cbn [bind]. eapply body_mono; [|exact He]. lia.
+        * injection Hstd as <- <- <-. cbn [bind loop_body].
+          eexists f1, _. split; [reflexivity|]. split; [exact Hbl|]. split; [discriminate|reflexivity].
+        * injection Hstd as <- <- <-. cbn [bind loop_body].
+          eexists f1, _. split; [reflexivity|]. split; [exact Hbl|]. split; [discriminate|reflexivity].
+        * injection Hstd as <- <- <-. cbn [bind loop_body].
+          eexists f1, _. split; [reflexivity|]. split; [exact Hbl|]. split; [discriminate|reflexivity].
+  Qed.
+
+  Lemma fd_write_all_sim : forall fuel f done d of r,
+    A + nlen d < W64 -> done <= nlen d ->
+    std_fd_write_all os_write fuel f (ndrop done d) = Val (of, r) ->
+    forall fi fo, (fuel <= fi)%nat -> (fuel <= fo)%nat ->
+    exists f', exact_loop EWriteZero fi fo (write_volatile_raw_fd os_write) f (arena d) (pb_at d done)
+                 = Val ((f', arena d), r)
+      /\ (r = Ok tt -> of = Some f') /\ (r <> Ok tt -> of = None).
+  Proof.
+    induction fuel as [|k IH]; intros f done d of r HA Hdone Hstd fi fo Hfi Hfo; [discriminate|].
+    destruct fo as [|fo]; [lia|]. destruct fi as [|fi]; [lia|].
+    cbn [std_fd_write_all] in Hstd. rewrite exact_loop_unfold. unfold pb_at at 1. cbn [vs_len].
+    rewrite nlen_ndrop in Hstd.
+    destruct (N.eqb_spec (nlen d - done) 0) as [Hz|Hz].
+    - injection Hstd as <- <-. exists f. split; [reflexivity|]. split; [auto|congruence].
+    - cbn [retry_eintr]. unfold write_volatile_raw_fd at 1. cbn [pb_at vs_len vs_off].
+      assert (Hoff : mem_read (arena d) (margin + done) (nlen d - done) = ndrop done d).
+      { rewrite arena_read_at by lia. unfold mem_read. apply ntake_all. rewrite nlen_ndrop. lia. }
+      rewrite Hoff.
+      destruct (os_write f (ndrop done d)) as [f1 r0] eqn:Eos.
+      destruct r0 as [n|e].
+      + pose proof (write_bounded _ _ _ _ Eos) as Hn. rewrite nlen_ndrop in Hn. cbn [bind].
+        destruct (N.eqb_spec n 0) as [Hn0|Hn0].
+        * injection Hstd as <- <-. unfold loop_body. rewrite Hn0. cbn [N.eqb].
+          exists f1. split; [reflexivity|]. split; [discriminate|reflexivity].
+        * unfold loop_body. destruct (N.eqb_spec n 0); [contradiction|].
+          rewrite vs_offset_ok_c by (unfold pb_at; cbn [vs_addr vs_len]; lia).
+          cbn [pb_at vs_addr vs_off vs_len]. rewrite ndrop_ndrop in Hstd.
+          destruct (IH f1 (done + n) d of r HA) with (fi := Datatypes.S fi) (fo := fo)
+            as (f' & He & Hok & Hko); [lia|exact Hstd|lia|lia|].
+          exists f'. split; [|auto].
+          rewrite <- He. unfold pb_at. f_equal. f_equal; lia.
+      + destruct e.
+        * cbn [bind].
+          destruct (IH f1 done d of r HA Hdone) with (fi := fi) (fo := Datatypes.S fo) as (f' & He & Hrest);
+            [exact Hstd|lia|lia|].
+          exists f'. split; [|exact Hrest].
+          rewrite exact_loop_unfold in He. unfold pb_at at 1 in He. cbn [vs_len] in He.
+          destruct (N.eqb_spec (nlen d - done) 0); [contradiction|].
+          destruct (retry_eintr fi (write_volatile_raw_fd os_write) f1 (arena d) (pb_at d done))
+            as [x| |] eqn:Er; cbn [bind] in He; try discriminate.
+          cbn [bind]. eapply body_mono; [|exact He]. lia.
+        * injection Hstd as <- <-. cbn [bind loop_body].
+          exists f1. split; [reflexivity|]. split; [discriminate|reflexivity].
+        * injection Hstd as <- <-. cbn [bind loop_body].
+          exists f1. split; [reflexivity|]. split; [discriminate|reflexivity].
+        * injection Hstd as <- <-. cbn [bind loop_body].
+          exists f1. split; [reflexivity|]. split; [discriminate|reflexivity].
+  Qed.
+End FdLoops.
